@@ -329,6 +329,7 @@ class FutEnv:
         self.exhausted = False  # all batches drawn
         x = z3.Const("x_env", FUT)
         ctx.assume_def(z3.ForAll([x], z3.Implies(self.failed(x), self.done(x))))
+        ctx.finite_sorts = [FUT, INP]
 
     def store_set(self, arr, el, val):
         return z3.Store(arr, el, val)
